@@ -18,7 +18,7 @@ from ..formulas import LANGS
 from ..galg import (GraphHooks, evaluate_set, all_graphs, all_subsets,
                     NotEvaluable, GraphError, CG, g_sccs, g_reach, g_reversed)
 from .. import oracle
-from ..report import Finding, RuleResult, floor
+from ..report import Finding, RuleResult, floor, Attempts
 
 PROP = 'C15'
 METHOD = 'get_equivalent_non_fair_formula'
@@ -518,9 +518,10 @@ def _pshow(v):
 
 
 def run(prog, tier, seed):
-    r1 = rule_f1(prog, tier)
-    r2, r4 = rules_f24(prog, tier)
-    r3, r5 = rule_f35(prog)
+    T = Attempts()
+    r1 = T(rule_f1, prog, tier)
+    r2, r4 = T(rules_f24, prog, tier, _n=2)
+    r3, r5 = T(rule_f35, prog, _n=2)
     expl = ('(1) get_fair_states is summarised by abstract interpretation as '
             'a closed term over the graph primitives (SCCs, reversal, '
             'reachability) and compared, on every total structure with <= 3 '
@@ -540,4 +541,4 @@ def run(prog, tier, seed):
                    'the cited definition does not say whether T is an atom',
                    'exactness of fair answers beyond these clauses is not '
                    'decided']
-    return [r1, r2, r4, r3, r5], expl, assumptions, {}
+    return T.results(r1, r2, r4, r3, r5), expl, assumptions, T.extra()
